@@ -55,6 +55,9 @@ type workload struct {
 	// SharedShell: all polygons have the same outer ring and one hole; only the hole's
 	// coordinates tell them apart (comparisons that stop early see equal polygons)
 	SharedShell bool `json:"shared_shell,omitempty"`
+	// AsyncSource: ReadFeatures hands the sending to a goroutine of its own and returns at once
+	// (the interface asks for the features on the channel, not for a blocking call)
+	AsyncSource bool `json:"async_source,omitempty"`
 	// More: further tables processed by further ProcessFeatures calls in the same run (the
 	// command line tool calls it once per table in one process), each with its own stream
 	// and targets; state kept between calls by the code under test shows here
@@ -87,7 +90,7 @@ type replayFile struct {
 	Prelude int `json:"prelude,omitempty"`
 }
 
-var polyKinds = map[string]bool{"polygon": true, "multipolygon": true}
+var polyKinds = map[string]bool{"polygon": true, "multipolygon": true, "empty-polygon": true, "empty-ring-polygon": true}
 var allKinds = []string{"polygon", "multipolygon", "point", "linestring", "multipoint", "multilinestring", "collection"}
 
 func genWorkload(seed uint64, mix string) (workload, simrt.FaultPlan, simrt.MapPolicy, uint64) {
@@ -197,6 +200,11 @@ func genWorkloadN(seed uint64, mix string, nested bool) (workload, simrt.FaultPl
 		if polyOnly || r.Chance(0.45) {
 			k = allKinds[r.Intn(2)]
 		}
+		if polyKinds[k] && r.Chance(0.03) {
+			// POLYGON EMPTY, and a polygon whose only ring is empty: the library returns nothing
+			// for them, so they must reach no target
+			k = []string{"empty-polygon", "empty-ring-polygon"}[r.Intn(2)]
+		}
 		f.Kind = k
 		switch k {
 		case "polygon":
@@ -205,6 +213,9 @@ func genWorkloadN(seed uint64, mix string, nested bool) (workload, simrt.FaultPl
 			np := r.Intn(4)
 			if r.Chance(0.01) {
 				np = 33 + r.Intn(40) // now and then a multipolygon of very many parts
+			}
+			if r.Chance(0.004) {
+				np = 100 + r.Intn(400) // rarely hundreds: code that splits such work into chunks
 			}
 			for p := 0; p < np; p++ {
 				f.Parts = append(f.Parts, partSpec{Out: genOut()})
@@ -227,6 +238,7 @@ func genWorkloadN(seed uint64, mix string, nested bool) (workload, simrt.FaultPl
 	}
 	w.NearDup = r.Chance(0.08)
 	w.SharedShell = !w.NearDup && r.Chance(0.08)
+	w.AsyncSource = r.Chance(0.08)
 	w.Flush = map[string]int{}
 	for _, id := range ids {
 		k := 1 + r.Intn(3)
@@ -427,6 +439,10 @@ func geometryOf(f featSpec) geom.Geometry {
 	switch f.Kind {
 	case "polygon":
 		return inputPolygon(f.ID, 0)
+	case "empty-polygon":
+		return geom.Polygon{}
+	case "empty-ring-polygon":
+		return geom.Polygon{{}}
 	case "multipolygon":
 		mp := geom.MultiPolygon{}
 		for p := range f.Parts {
@@ -453,6 +469,17 @@ type fakeSource struct {
 }
 
 func (s *fakeSource) ReadFeatures(ch chan<- processing.Feature) {
+	if s.w.AsyncSource {
+		go func() {
+			simrt.YieldAs("src", "src:async-start")
+			s.readFeatures(ch)
+		}()
+		return
+	}
+	s.readFeatures(ch)
+}
+
+func (s *fakeSource) readFeatures(ch chan<- processing.Feature) {
 	for i, f := range s.feats {
 		for k := 0; k < s.w.SrcYields; k++ {
 			simrt.YieldAs("src", "src:slow")
@@ -601,6 +628,9 @@ func (h *harness) tableSnap(p geom.Polygon, tmIDs []int) map[int][]geom.Polygon 
 	}
 	jitter(h.w.SnapYields)
 	simSleep(h.w.SnapSleepMs)
+	if len(p) == 0 || len(p[0]) == 0 {
+		return map[int][]geom.Polygon{} // nothing to snap: what the library returns for an empty polygon
+	}
 	fid, part := decodePolygon(p)
 	h.mu.Lock()
 	h.snapCalls++
